@@ -24,7 +24,11 @@ ASSUMPTIONS = ['pandas: Index.intersection/union of sorted DatetimeIndexes are t
                'presync with join naming a parameter: the named argument is a timeseries, a pd.Index, an array or dict(index=...); a list / plain dict there (list of indexes, no reindex accepts it) is not generated',
                'the ORDER of the columns after column alignment is not compared (a set in the statement); arrays mixed with pandas objects (ValueError) are sampled only lightly; 2-d arrays are NOT generated (the wire carries 1-d arrays only; probed by hand: '
                'df_sync([a(3x2), b(1x2), c(2,)], "oj") front-pads each along axis 0)',
-               'float values are exact multiples of 1/4']
+               'float values are exact multiples of 1/4',
+               'READING of clause 2 ("at each surviving timestamp a series keeps exactly its original value"): it is read for VALUES - a NaN cell held at a surviving '
+               'timestamp is not an observation; with a fill method it is filled like a timestamp the series lacked (the code reindexes `_nona(ts)`; df_reindex(x, x.index, "ffill") '
+               'equals df_fillna(x, "ffill"), not x: theorems reindex_fill_own_nan, reindex_own_index_ffill/_bfill, law-reindex-own-index); without a fill method the NaN stays. '
+               'Non-NaN cells are kept under every method (reindex_keep, reindex_fill_keeps)']
 S = 4
 nan = float('nan')
 VALS = [1.0, 2.0, 0.0, -1.5, 0.25, 3.0, 7.75, -4.0, 10.0, 20.5]
@@ -846,6 +850,29 @@ def laws(rng, tier, ctx):
                 exp = filled if m == 'ffill' else filled[::-1]
             if not same_vals(list(map(float, b)), list(map(float, exp))):
                 yield Finding('violation', case, 'arrays are not aligned at the end%s: got %s, expected %s' % ('' if m == 'N' else ' and then filled', list(b), exp))
+                break
+    # the declared reading of "keeps exactly its original value" (review t4 2.1): a NaN HELD at a surviving timestamp is no value -
+    # reindexing an object onto ITS OWN index with a fill method is the plain fill of C12, df_fillna(x, method), and without a
+    # method the object itself (theorems reindex_own_index_ffill / _bfill, reindex_keep); ties C03 to C12 on the implementation
+    for _ in range(n // 2):
+        days = rand_days(rng, 'overlap', [])
+        x = rand_series(rng, days, 0.4) if rng.random() < 0.5 else rand_frame(rng, days, 0.4, rng.choice([['a'], ['a', 'b'], ['b', 'a', 'c']]))
+        m = rng.choice(METHODS)
+        case = dict(tag='law-reindex-own-index/%s' % m, lines=['(align reindex %s %s %s)' % (enc_tree(x), enc_join(days), m)])
+        try:
+            res = pyg_base.df_reindex(x, x.index, dec_method(m))
+            want = x if m == 'N' else pyg_base.df_fillna(x, dec_method(m))
+        except Exception as e:
+            yield Finding('violation', case, 'df_reindex(x, x.index, %s) / df_fillna raised %s: %s' % (m, type(e).__name__, str(e)[:120]))
+            continue
+        count += 1
+        if type(res) is not type(want) or list(res.index) != list(x.index) or not same_tree(res, snapshot_tree(want)):
+            yield Finding('violation', case, 'df_reindex(x, x.index, %s) is not %s: got %s' % (m, 'x' if m == 'N' else 'df_fillna(x, %s)' % m, enc_tree(res)))
+            continue
+        vals = lambda o: [list(map(float, o.values))] if isinstance(o, pd.Series) else [list(map(float, o[c].values)) for c in o.columns]
+        for a, b in zip(vals(x), vals(res)):          # ... and a non-NaN cell never changes (clause 2 for VALUES)
+            if any(not _isnan(u) and u != v for u, v in zip(a, b)):
+                yield Finding('violation', case, 'a non-NaN cell at a surviving timestamp changed: %s -> %s' % (a, b))
                 break
     yield count
 
